@@ -399,6 +399,11 @@ func (self Reflect) mapCaseHasData(v reflect.Value, c *meta.ChoiceCase) bool {
 		}
 		mapVal := v.MapIndex(reflect.ValueOf(d.Ident()))
 		if mapVal.IsValid() {
+			if meta.IsList(d) && self.isEmptyList(mapVal) {
+				// what is left of a list whose last entry was deleted is not data (OnChild
+				// does not show it either)
+				continue
+			}
 			return true
 		}
 	}
